@@ -195,3 +195,8 @@ pub fn replay_batch(script: &str, run: &dyn Fn(&str) -> bool) -> String {
 pub fn kf_listed(role: &str) -> bool {
     next("kf", role) == "1"
 }
+
+/// Tier-dependent bound: `q` in the quick tier, `t` in the thorough tier.
+pub fn bound(_q: usize, _t: usize) -> usize {
+    next("bound", "b").parse().unwrap()
+}
